@@ -55,6 +55,9 @@ Bases == SeqOf(PartBases) \o <<
   \* one entry per line, every line ending in a comma (the field ends ",\n")
   [f |-> << <<Plain(1)>> >>, lay |-> "comma_newline", sv |-> 0],
   [f |-> << <<Plain(1)>>, <<Plain(2), Plain(3)>> >>, lay |-> "comma_newline", sv |-> 0],
+  \* blanks / a line break BETWEEN an entry and its comma ("a , b , c", "a\n , b")
+  [f |-> << <<Plain(1)>>, <<Plain(2)>>, <<Plain(3)>> >>, lay |-> "spaced_commas", sv |-> 0],
+  [f |-> << <<Plain(1), Plain(2)>>, <<Plain(3)>> >>, lay |-> "comma_on_next_line", sv |-> 0],
   \* a LONG multi-line field (one step from it: the edited item may be far from both ends)
   [f |-> << <<Plain(6)>>, <<R(7, 1, 0, 0, 0)>>, <<Plain(8), Plain(9)>>, <<Plain(1)>>, <<R(2, 2, 1, 0, 0)>>, <<Plain(3)>> >>, lay |-> "long", sv |-> 0]
 >>
